@@ -282,9 +282,12 @@ func checkC06(c *Ctx) {
 	}
 	exprS1(func(_ string, e *E) { evalOne(e.String()) })
 	exprS5(func(_ string, e *E) { evalOne(e.String()) })
+	for _, l := range []string{`'\u12'`, `'ab\u00e'`, `'\u'`, `'\x'`, `'\u00e9'`, `['\u41': 1]`, `'\u12' + 1`} {
+		evalOne(l)
+	}
 	// (i) ParseGlobals on every line form
 	lines := []string{"", "// comment", "A = 1", "A=1", " A = 'x' ", "A.B = true", "A = null", "A = 1.5", "A = -1", "A = 0x1F", "A", "= 1", "A = ", "A = 1 2", "A = $x", "A = $x.y", "A = 1 < 'a'",
-		"A = [1, 2]", "A = ['k': 1]", "A = f(1)", "A = length(1)", "A = not", "A = 'unterminated", "A = 1 / 0", "A = 1 % 0", "A = $ij.x", "A = range(1, 2, 0)", "A = -'a'", "A = 1 == 1 == 1", "A = B", "A = 'a' + 1", "A = =", "\x00", "A = \xff"}
+		"A = [1, 2]", "A = ['k': 1]", "A = f(1)", "A = length(1)", "A = not", "A = 'unterminated", "A = 1 / 0", "A = 1 % 0", "A = $ij.x", "A = range(1, 2, 0)", "A = -'a'", "A = 1 == 1 == 1", "A = B", "A = 'a' + 1", "A = =", "A = '\\u12'", "A = 'ab\\u00e'", "A = '\\x'", "A = '\\u00e9'", "\x00", "A = \xff"}
 	for _, l1 := range lines {
 		for _, l2 := range lines {
 			if !c.Mine() {
